@@ -96,3 +96,45 @@ Fixpoint find_prod_in (lhs : nat) (rhs : list symbol) (g : LR.grammar) (i : nat)
 
 Definition P (lhs : String.string) (rhs : list String.string) : nat :=
   find_prod_in (nt_id lhs) (map sym_of rhs) grammar 0.
+
+(* the text path: Parser.parse_string terminates the last line before parsing (when the translated
+   flag GenLR.appends_final_newline says so).  At the token level: a text that does not end in a
+   newline character gets one NEWLINE token appended (the lexer itself is not modelled; T2
+   compares this with the tokens ply really fetched on every text case). *)
+From Coq Require Import String.
+Definition t_newline : nat := term_id "NEWLINE"%string.
+
+Definition text_tokens (raw : list nat) (ends_nl : bool) : list nat :=
+  if appends_final_newline && negb ends_nl then raw ++ [t_newline] else raw.
+
+Definition parse_text (raw : list nat) (ends_nl : bool) : result := parse (text_tokens raw ends_nl).
+
+(* in every accepted token sequence each COMMENT is immediately followed by NEWLINE (the only rule
+   with COMMENT is `comment : COMMENT NEWLINE`, checked on the CURRENT grammar by vm_compute) *)
+Definition t_comment : nat := term_id "COMMENT"%string.
+
+Lemma comment_rule : grammar_followed t_comment t_newline grammar = true.
+Proof. vm_cast_no_check (eq_refl true). Qed.
+
+Theorem accepted_comment_newline : forall fuel ts rs, ~ In eof ts ->
+  lr_run tables fuel ts = Accept rs -> followed t_comment t_newline ts = true.
+Proof.
+  intros fuel ts rs N0 R. destruct (accepted_documented _ _ _ N0 R) as [_ [D _]].
+  exact (derives_followed _ _ _ comment_rule _ _ D eq_refl).
+Qed.
+
+Theorem trailing_comment_rejected : forall fuel ts rs, ~ In eof ts ->
+  lr_run tables fuel (ts ++ [t_comment]) <> Accept rs.
+Proof.
+  intros fuel ts rs N0 R.
+  assert (N1 : ~ In eof (ts ++ [t_comment])).
+  { intro I. apply in_app_or in I. destruct I as [I|[I|[]]]; [exact (N0 I)|]. vm_compute in I. discriminate. }
+  pose proof (accepted_comment_newline _ _ _ N1 R) as F. rewrite followed_last in F. discriminate.
+Qed.
+
+(* a text without a final newline character: what the driver sees ends in NEWLINE *)
+Theorem text_tokens_end_newline : appends_final_newline = true ->
+  forall raw, last (text_tokens raw false) eof = t_newline.
+Proof.
+  intros A raw. unfold text_tokens. rewrite A. cbn [negb andb]. apply last_last.
+Qed.
